@@ -91,7 +91,8 @@ func c16(r *core.Run) {
 	r.Explanation = "Decides on the SSA of lib/executors (+ the containers of lib/store/sqlx and lib/stat), for every path: the container's AddTask/RemoveAll and the `guarded` flag are used only with pe.lock held (incl. closures run synchronously), lock balanced; container state written by AddTask is touched by no other function than AddTask/RemoveAll; when AddTask reports full, RemoveAll and exactly one inflight increment happen before the lock is released and the removed batch is what Add sends to the flusher, after which Add waits for the confirmation; the flusher decrements inflight exactly once per received batch, enters the execution (WaitGroup.Add) before confirming, and executes exactly the received batch; every execution is preceded by exactly one enterExecution and ends in a deferred WaitGroup.Done; Flush executes what RemoveAll returned under the lock; Wait flushes, then waits; the flusher goroutine defers Flush before its loop and returns only when the quit test said so; the quit test clears `guarded` only with inflight == 0 read under the same lock hold, and reports true only then; a flusher is started (asynchronously) exactly when `guarded` was false, after setting it; thresholds are `len(tasks) >= maxTasks` / `size >= maxChunkSize` measured after the append; RemoveAll returns the state it then resets."
 	r.NotDecided = "exactly-once execution and batch order over interleavings of Add/tick/Flush/Wait; the idle-quit timing; behaviour of the execute callbacks; sync.WaitGroup / channel semantics."
 
-	funcs := p.PkgFuncs(exPkg)
+	curProg = p
+	funcs := pkgFuncsAll(p, exPkg)
 	if len(funcs) == 0 {
 		r.Check("D0/anchor", "package lib/executors is loaded", func(o *core.O) { o.Unres("package %s not found", exPkg) })
 		return
@@ -171,6 +172,70 @@ func c16(r *core.Run) {
 					flusher, flSel, flK = f, s, i
 				}
 			}
+		}
+	}
+	// where the flusher is started: `go f()`, a closure / bound method value / function value
+	// handed to a goroutine runner
+	type flUse struct {
+		fn    *ssa.Function
+		in    ssa.Instruction
+		async bool
+		how   string
+	}
+	var flUses []flUse
+	startFns := map[*ssa.Function]bool{}
+	if flusher != nil {
+		classify := func(f *ssa.Function, v ssa.Value) {
+			refs := v.Referrers()
+			if refs == nil {
+				return
+			}
+			for _, ref := range *refs {
+				switch x := ref.(type) {
+				case *ssa.DebugRef:
+				case *ssa.Go:
+					flUses = append(flUses, flUse{f, x, true, "go"})
+				case *ssa.Call:
+					n := core.Short(core.CalleeName(x))
+					flUses = append(flUses, flUse{f, x, n == "lib/threading.GoSafe", n})
+				default:
+					flUses = append(flUses, flUse{f, ref, false, "?"})
+				}
+			}
+		}
+		for _, f := range funcs {
+			for _, b := range f.Blocks {
+				for _, in := range b.Instrs {
+					switch x := in.(type) {
+					case *ssa.MakeClosure:
+						g, _ := x.Fn.(*ssa.Function)
+						if g == flusher || (g != nil && boundTarget(g) == flusher) {
+							classify(f, x)
+						}
+					case *ssa.Go:
+						if x.Call.StaticCallee() == flusher {
+							flUses = append(flUses, flUse{f, x, true, "go"})
+						}
+					case *ssa.Call:
+						if x.Call.StaticCallee() == flusher {
+							flUses = append(flUses, flUse{f, x, false, "a plain call"})
+						}
+						for _, a := range x.Call.Args {
+							if a == ssa.Value(flusher) {
+								n := core.Short(core.CalleeName(x))
+								flUses = append(flUses, flUse{f, x, n == "lib/threading.GoSafe", n})
+							}
+						}
+					case *ssa.Defer:
+						if x.Call.StaticCallee() == flusher {
+							flUses = append(flUses, flUse{f, x, false, "defer"})
+						}
+					}
+				}
+			}
+		}
+		for _, u := range flUses {
+			startFns[u.fn] = true
 		}
 	}
 	quitFns := roleSet(func(f *ssa.Function) bool {
@@ -345,10 +410,40 @@ func c16(r *core.Run) {
 						return cc == call && idx == i
 					}
 				}
-				isSend := func(in ssa.Instruction) bool {
+				// a send site is a send on pe.commander in f, or a call of an in-package helper
+				// that sends one of its parameters on pe.commander (one level)
+				type sendSite struct {
+					val       ssa.Value
+					confirmed bool
+				}
+				sites := map[ssa.Instruction]sendSite{}
+				isRawSend := func(in ssa.Instruction) bool {
 					s, ok := in.(*ssa.Send)
 					return ok && chanID(s.Chan) == fCommander
 				}
+				for _, in := range core.Instrs(f, isRawSend) {
+					sites[in] = sendSite{in.(*ssa.Send).X, core.MustPass(core.After(in), isRecvOn(fConfirm), core.IsExit) == nil}
+				}
+				for _, in := range core.Instrs(f, func(in ssa.Instruction) bool { _, ok := in.(*ssa.Call); return ok }) {
+					hc := in.(*ssa.Call)
+					h := hc.Call.StaticCallee()
+					if h == nil || !inPkg[h] || h == f {
+						continue
+					}
+					for _, s2 := range core.Instrs(h, isRawSend) {
+						pv, ok := resolveLocal(s2.(*ssa.Send).X).(*ssa.Parameter)
+						if !ok {
+							continue
+						}
+						for i, q := range h.Params {
+							if q == pv && i < len(hc.Call.Args) {
+								sites[in] = sendSite{hc.Call.Args[i], core.MustPass(core.After(s2), isRecvOn(fConfirm), core.IsExit) == nil ||
+									core.MustPass(core.After(in), isRecvOn(fConfirm), core.IsExit) == nil}
+							}
+						}
+					}
+				}
+				isSend := func(in ssa.Instruction) bool { _, ok := sites[in]; return ok }
 				sends := core.Instrs(f, isSend)
 				if len(sends) == 0 {
 					o.Fail(p.InstrPos(c), "%s never hands the removed batch to the flusher", core.FuncName(f))
@@ -363,11 +458,11 @@ func c16(r *core.Run) {
 					_ = w
 				}
 				for _, s := range sends {
-					if !res(0)(s.(*ssa.Send).X) {
-						o.Fail(p.InstrPos(s), "Add sends %s instead of the removed batch", core.Describe(s.(*ssa.Send).X))
+					if !res(0)(sites[s].val) {
+						o.Fail(p.InstrPos(s), "Add sends %s instead of the removed batch", core.Describe(sites[s].val))
 					}
-					if w := core.MustPass(core.After(s), isRecvOn(fConfirm), core.IsExit); w != nil {
-						o.Fail(p.InstrPos(w), "Add returns without waiting for the flusher's confirmation: a following Wait can miss the batch")
+					if !sites[s].confirmed {
+						o.Fail(p.InstrPos(s), "Add returns without waiting for the flusher's confirmation: a following Wait can miss the batch")
 					}
 				}
 			}
@@ -623,24 +718,16 @@ func c16(r *core.Run) {
 			o.Fail(p.InstrPos(w), "the flusher returns although the quit test did not clear `guarded`: no flusher is ever started again")
 		}
 		// started asynchronously
-		par := flusher.Parent()
-		if !o.Need(par != nil, "the function that starts the flusher") {
+		if !o.Need(len(flUses) > 0, "the function that starts the flusher") {
 			return
 		}
-		for _, in := range core.Instrs(par, func(in ssa.Instruction) bool {
-			mc, ok := in.(*ssa.MakeClosure)
-			return ok && mc.Fn == ssa.Value(flusher)
-		}) {
-			for _, ref := range *in.(*ssa.MakeClosure).Referrers() {
-				switch x := ref.(type) {
-				case *ssa.DebugRef, *ssa.Go:
-				case *ssa.Call:
-					if n := core.Short(core.CalleeName(x)); n != "lib/threading.GoSafe" {
-						o.Fail(p.InstrPos(ref), "the flusher loop is run through %s, not in its own goroutine: Add never returns", n)
-					}
-				default:
-					o.Unres("%s: flusher closure used in an unknown way", p.InstrPos(ref))
-				}
+		for _, u := range flUses {
+			switch {
+			case u.async:
+			case u.how == "?":
+				o.Unres("%s: flusher function value used in an unknown way", p.InstrPos(u.in))
+			default:
+				o.Fail(p.InstrPos(u.in), "the flusher loop is run through %s, not in its own goroutine: Add never returns", u.how)
 			}
 		}
 	})
@@ -706,10 +793,9 @@ func c16(r *core.Run) {
 	})
 
 	r.Check("D4/K2/flusher-started-when-unguarded", "after an Add, exactly when `guarded` was false it is set and a flusher is started (under the lock, on every such path); never when it was true", func(o *core.O) {
-		if !o.Need(flusher != nil && flusher.Parent() != nil, "flusher start function") {
+		if !o.Need(flusher != nil && len(startFns) > 0, "flusher start function") {
 			return
 		}
-		startFns := map[*ssa.Function]bool{flusher.Parent(): true}
 		isStart := callTo(startFns)
 		n := 0
 		for _, f := range funcs {
@@ -760,10 +846,8 @@ func c16(r *core.Run) {
 			}
 			// the function must itself run after the AddTask of the same lock hold: it is the deferred closure of an add function or the add function itself
 			okCtx := addFns[f]
-			if par := f.Parent(); par != nil && addFns[par] {
-				for range core.Instrs(par, func(in ssa.Instruction) bool { return deferredFn(in) == f }) {
-					okCtx = true
-				}
+			if body, _ := deferSiteOf(f); body != nil && addFns[body] {
+				okCtx = true
 			}
 			if !okCtx {
 				o.Fail(p.Pos(f.Pos()), "%s starts the flusher but is not part of the add path", core.FuncName(f))
